@@ -414,7 +414,7 @@ fn roll(rng: &mut Rng, ctx: &mut Ctx) {
         if k % 40 == 39 { ids.reverse(); }
         // the same table numbered far from -123 (the tail of a very long game, a renumbered table, a file with large Frame Start ids): every id
         // shifted by one base, or only the ids from some row on (so that the table straddles the base), around powers of two up to 2^26
-        if k % 8 == 5 && !ids.is_empty() { let p = [16u32, 20, 22, 23, 24, 26, 21, 18][(k / 8) % 8]; let base = (1i32 << p) - [0, 1, 123, 124, 200][(k / 64) % 5];
+        if k % 8 == 5 && !ids.is_empty() { let p = if k < 1600 { [16u32, 20, 22, 23, 24, 26, 21, 18][(k / 8) % 8] } else { [16u32, 18, 17, 19][(k / 8) % 4] }; /* (tables of 2^20+ entries only near the start of a shard) */ let base = (1i32 << p) - [0, 1, 123, 124, 200][(k / 64) % 5];
             let from = if (k / 8) % 3 == 2 { ids.len() / 2 } else { 0 }; let lo = ids[from..].iter().copied().min().unwrap_or(-123);
             for x in ids[from..].iter_mut() { *x = *x - lo + base + (k % 3) as i32 - 1; } }
         // the extreme id needs a 2 GiB table: only in the thorough tier
@@ -781,8 +781,8 @@ fn ubj(rng: &mut Rng, ctx: &mut Ctx) {
             let n = [127usize, 200, 126, 111, 180][(k / 40) % 5] + (rng.next() % 3) as usize; body.clear(); for i in 0..n { body.extend(b"U\x03"); body.extend(format!("{:03}", i).as_bytes()); body.push(b'{'); if i % 7 == 0 { body.extend(b"U\x01x{U\x01yl\x00\x00\x00\x01}"); } body.push(b'}'); } clean = true; }
         // a value that is one marker byte repeated very many times (every UBJSON marker in turn, then every other byte): whatever the reader makes of the
         // byte — a container it knows, one it does not, a scalar — it must come back with a result; recursion on input-controlled depth is an abort
-        let run = k % 16 == 7 && k % 20 != 19; /* (never in place of a deep or wide tree) */
-        if run { const MARKERS: &[u8] = b"[{#$NZTFiUIlLdDCSH]}"; let j = k / 16; let mk = if j < MARKERS.len() { MARKERS[j] } else { (j - MARKERS.len()) as u8 }; let depth = if ctx.thorough { 1_000_000 } else { 400_000 };
+        let run = k % 16 == 7 && k % 20 != 19 && k < 16 * 48; /* (never in place of a deep or wide tree; 2 MB of hex each: the first 48 per shard) */
+        if run { const MARKERS: &[u8] = b"[{#$NZTFiUIlLdDCSH]}"; let j = k / 16; let mk = if j < MARKERS.len() { MARKERS[j] } else { (j - MARKERS.len()) as u8 }; let depth = 400_000;
             body.clear(); body.extend(b"U\x01a"); body.extend(std::iter::repeat(mk).take(depth)); clean = false; }
         // long keys and values (200 / 255 bytes) made of one multi-byte character after a short ASCII prefix, so that characters straddle every
         // multiple of 64 (a reader that decodes a string in blocks must not cut a character)
@@ -855,7 +855,7 @@ fn peppi_suite(rng: &mut Rng, ctx: &mut Ctx) {
         if let Some(d) = deep { let mut m = vec![]; for _ in 0..d - 1 { m.extend(b"U\x01a{"); } for _ in 0..d - 1 { m.push(b'}'); } r.metadata = Some(m); }
         // a metadata tree whose JSON copy is large: just below / at / above 64 KiB and well beyond (members of an archive have no size limit
         // other than tar's; a reader that buffers "small" members must not cut this one)
-        if k % 10 == 6 { let target = [65_537usize, 65_536, 300_000, 65_535, 70_000, 131_073][(k / 10) % 6]; let per = 11 + 200 + 1; let n = (target - 2) / per; let mut m = vec![];
+        if k % 10 == 6 && k < 300 { let target = [65_537usize, 65_536, 300_000, 65_535, 70_000, 131_073][(k / 10) % 6]; let per = 11 + 200 + 1; let n = (target - 2) / per; let mut m = vec![];
             let used = 2 + n * per - 1; let last = 200 + target.saturating_sub(used).min(55);
             for i in 0..n { let key = format!("k{:05}", i); m.push(b'U'); m.push(6); m.extend(key.as_bytes()); let vl = if i + 1 == n { last } else { 200 }; m.extend(b"SU"); m.push(vl as u8); m.extend(std::iter::repeat(b'a' + (i % 26) as u8).take(vl)); }
             r.metadata = Some(m); tags.push(format!("big-metadata:{}", target)); }
